@@ -294,6 +294,11 @@ Scan(c) ==
     /\ cfmap' = Touch(cfmap, c, FamOf(c, "scan"))
     /\ UNCHANGED <<wide, sets, batch, sbuf, iters, log, nops, awide, asets>>
 
+(* as steps of the reference on its own: without the cache a read changes  *)
+(* nothing at all                                                          *)
+ReadGet(c) == TrackTouch /\ Get(c)
+ReadScan(c) == TrackTouch /\ Scan(c)
+
 (* the harness' "read everything": every cell and every set is read *)
 RECURSIVE TouchAll(_, _)
 TouchAll(m, cs) ==
@@ -342,7 +347,7 @@ Next ==
           \/ (\E s \in 1..MaxBufs : Consume(b, s))
     \/ \E s \in 1..MaxBufs : OpenBuf(s) \/ DropBuf(s) \/ (\E op \in Ops : BufOp(s, op))
     \/ \E i \in 1..MaxIters : ScanDrain(i) \/ (\E c \in SCols, key \in Keys : ScanOpen(i, c, key))
-    \/ (TrackTouch /\ \E c \in Cols : Get(c) \/ Scan(c))   \* without the cache a read changes nothing
+    \/ \E c \in Cols : ReadGet(c) \/ ReadScan(c)
     \/ Reopen
 
 Spec == Init /\ [][Next]_vars
